@@ -72,6 +72,27 @@ mod proofs {
   fn drop_stub(_h: &mut ObjectHandle) {}
 
   #[kani::proof]
+  #[kani::unwind(4)]
+  fn dbg_alloc_only() {
+    let mut gc = ManuallyDrop::new(Allocator::default());
+    let a = gc.manage_obj(LyBox::new(Value::from(1.0)), &NO_GC);
+    let st = gc.verif_stats();
+    assert!(st.bytes_allocated == st.owned_bytes);
+  }
+
+  #[kani::proof]
+  #[kani::unwind(4)]
+  #[kani::stub(<ObjectHandle as std::ops::Drop>::drop, drop_stub)]
+  fn dbg_collect_one() {
+    let mut gc = ManuallyDrop::new(Allocator::default());
+    gc.verif_set_gc_count(9);
+    let a = gc.manage_obj(LyBox::new(Value::from(1.0)), &NO_GC);
+    gc.collect_garbage(&Roots::<1> { boxes: [None], strs: [None] });
+    let st = gc.verif_stats();
+    assert!(st.bytes_allocated == 0);
+  }
+
+  #[kani::proof]
   #[kani::unwind(6)]
   #[kani::stub(<ObjectHandle as std::ops::Drop>::drop, drop_stub)]
   fn o20_4_full_collection_exact() {
